@@ -902,6 +902,9 @@ impl LdapConnAsync {
                         msgmap.1.remove(&id);
                     } else {
                         warn!("unmatched id: {}", id);
+                        // Not the response a single-exchange turn is waiting for: that
+                        // exchange isn't over, and its reply sender must not be kept.
+                        continue;
                     }
                 },
             };
